@@ -171,7 +171,8 @@ Definition rendered (nref txt : string) : Prop := exists s, rootid s = rid /\ re
 
 (* what a fully expanded schema looks like: every reference left is the rendering of a reference on a cycle *)
 Inductive out_ok : json -> Prop :=
-| oo_ref m nref : has_ref m = true -> rendered nref (get_str "$ref" m) -> on_cycle nref \/ In nref bad0 -> out_ok (JObj m)
+| oo_ref m nref : has_ref m = true -> rendered nref (get_str "$ref" m) -> on_cycle nref \/ In nref bad0 ->
+    (exists b j, holds b j nref) -> out_ok (JObj m)
 | oo_node m : has_ref m = false -> (forall k v x mm, In (k, v) m -> schema_child k v x -> x = JObj mm -> out_ok x) -> out_ok (JObj m).
 Lemma out_ok_obj x : out_ok x -> exists mm, x = JObj mm.
 Proof. intros H. inversion H; eexists; reflexivity. Qed.
@@ -248,7 +249,8 @@ Proof.
           exists b0, j0, bt, base, (JObj m). split; [exact H1|split; [exact H2|split; [exact H3|split; [exact Hg|exists m; auto]]]]. }
         split; [exact Hc|]. intros x Hx. cbn [memo set_memo] in Hx. destruct Hx as [<-|Hx]; [exact Hc|apply Hm; exact Hx]. }
     destruct Hcyc as [Hc Hm']. split; [split; assumption|].
-    apply (oo_ref _ nref); [apply has_ref_set| |exact Hc]. rewrite get_ref_set. exists s'. split; [exact (proj2 Hs1)|exact Ek].
+    apply (oo_ref _ nref); [apply has_ref_set| |exact Hc|exists base, (JObj m); split; [exact Hg|exists m; auto]].
+    rewrite get_ref_set. exists s'. split; [exact (proj2 Hs1)|exact Ek].
   - pose proof (is_circular_false _ _ _ _ Ec) as ->.
     destruct (resolve E docs cwd live s rroot (get_str "$ref" m) base "Schema") as [[s2 t]|sf| |] eqn:Eres; try discriminate.
     + assert (Hsame := G_same _ _ _ Hg Hr En).
@@ -309,8 +311,17 @@ Inductive ref_free : json -> Prop :=
 
 Theorem acyclic_ref_free : (forall nref, ~ on_cycle nref) -> bad0 = [] -> forall j, out_ok j -> ref_free j.
 Proof.
-  intros Hac Hb j H. induction H as [m nref Hr _ Hc|m Hr _ IH].
+  intros Hac Hb j H. induction H as [m nref Hr _ Hc _|m Hr _ IH].
   - exfalso. destruct Hc as [Hc|Hc]; [exact (Hac nref Hc)|rewrite Hb in Hc; exact Hc].
+  - apply rf_node; [exact Hr|exact IH].
+Qed.
+(* the same when the stacks start with entries that are not references of the graph (ExpandSpec starts the expansion of a
+   definition with "#/definitions/<name>" on the stack) *)
+Theorem acyclic_ref_free_from : (forall nref, ~ on_cycle nref) -> (forall b j x, holds b j x -> ~ In x bad0) ->
+  forall j, out_ok j -> ref_free j.
+Proof.
+  intros Hac Hb j H. induction H as [m nref Hr _ Hc Hh|m Hr _ IH].
+  - exfalso. destruct Hc as [Hc|Hc]; [exact (Hac nref Hc)|]. destruct Hh as [b [j Hh]]. exact (Hb b j nref Hh Hc).
   - apply rf_node; [exact Hr|exact IH].
 Qed.
 
